@@ -135,7 +135,7 @@ def run(R, tier):
                 for idx in range(2):
                     # entries of A are arrays (one value per array element) or plain numbers (constants)
                     Ai = np.array([[float(np.asarray(e, dtype=float).reshape(-1)[idx]) if np.asarray(e).size > 1 else float(np.asarray(e, dtype=float).reshape(-1)[0])
-                                    for e in row] for row in A])
+                                    for e in row] for row in A], dtype=float).reshape(len(A), len(xv))   # y may store no blade: 0 rows
                     lhs = Ai @ np.array([float(v) for v in xv])
                     rhs = [float(sympy.sympify(v[idx] if hasattr(v, '__len__') else v).subs(vals)) for v in y.values()]
                     if not np.allclose(lhs, rhs, rtol=1e-9, atol=1e-9):
